@@ -12,7 +12,10 @@ Callback operators that no table covers (join, group_join, expand, starmap,
 pluck, partition_indexed, do_action, zip_with_iterable, aggregate key mappers /
 comparers, cold factories under flat_map ...) are run by the ORACLE-ONLY family
 of harness/c09_rest.py (exception injected at the k-th invocation of one chosen
-callback; oracle straight from the property text)."""
+callback; oracle straight from the property text).  The grouping / windowing
+operators are run once more by the ORACLE-ONLY family of harness/c09_selfclose.py
+with durations derived from the group / window itself (they fire while the
+operator is failing its groups), every callback raising at every position."""
 import json
 import random
 
@@ -274,12 +277,27 @@ def run(chk):
     chk.cov["distinct_nontrivial"] += len(rest_nt)
     chk.cov["rule"] += ("; plus the oracle-only family of harness/c09_rest.py over the callback operators outside "
                         "every table (see uncovered_callback_operators: its own rule and counts)")
+    # ---- ORACLE-ONLY family: grouping / windowing operators (group_by_until, group_by, window_toggle, window_when,
+    # buffer_when, group_join, join) whose inner durations are derived from the group / window itself and fire
+    # synchronously when it terminates, i.e. INSIDE the operator's error fan-out; every callback, every position
+    import c09_selfclose
+    sc_nt = c09_selfclose.run_family(chk)
+    chk.cov["distinct_nontrivial"] += len(sc_nt)
+    chk.cov["rule"] += ("; plus the oracle-only family of harness/c09_selfclose.py: group_by_until / group_by / "
+                        "window_toggle / window_when / buffer_when / group_join / join with SELF-CLOSING durations "
+                        "(materialize+filter, ignore_elements, last, count of the group or window itself, mixed with hot "
+                        "durations and never()), group subscribers reacting to the group's terminal by disposing, "
+                        "several groups / windows open, each user callback raising at each of its invocations (see "
+                        "self_closing_durations: its own rule and counts)")
     return chk.finish(
         trusted_extra=["raise bookkeeping in harness/k2.py (UserError records the input position at which it was raised)"],
-        assumptions=["callbacks of window/buffer closing selectors, group_by(_until) selectors and timed mappers are "
-                     "exercised with raising callbacks in C18/C19/C15-C17; finally_action / do_finally actions run at "
-                     "dispose time, after the terminal was delivered (C40); every other callback operator is run here "
-                     "(machines + tables, or the oracle-only family of harness/c09_rest.py)"])
+        assumptions=["timed mappers are exercised with raising callbacks in C15-C17; window/buffer closing selectors "
+                     "and group_by(_until) selectors are exercised against their models in C18/C19 and here (oracle "
+                     "only, self-closing durations: harness/c09_selfclose.py); the first call of the closing mapper of "
+                     "window_when / buffer_when happens inside subscribe(), before any notification is processed, and "
+                     "is not judged; finally_action / do_finally actions run at dispose time, after the terminal was "
+                     "delivered (C40); every other callback operator is run here (machines + tables, or the "
+                     "oracle-only family of harness/c09_rest.py)"])
 
 
 def replay(chk, path):
@@ -288,6 +306,9 @@ def replay(chk, path):
     if "rest_case" in d:
         import c09_rest
         return c09_rest.replay_case(chk, d, path)
+    if "selfclose_case" in d:
+        import c09_selfclose
+        return c09_selfclose.replay_case(chk, d, path)
     if "cold_case" in d:
         c = d["cold_case"]
         probs, info = cold_case(c["table"], c["operator"], c["source"], c["case_seed"])
